@@ -32,7 +32,7 @@ PY
 }
 export -f one
 out=seeded/MATRIX.tsv
-ls -d seeded/C*-[mnpq]* | xargs -P $par -I{} bash -c 'one {}' > /tmp/mx_rows.tsv
+ls -d seeded/C*-[mnpqr]* | xargs -P $par -I{} bash -c 'one {}' > /tmp/mx_rows.tsv
 git -C /repo worktree prune
 ( echo -e "seed\tproperty\tcheck_exit\tviolation_keys"; sort /tmp/mx_rows.tsv ) > $out; rm -f /tmp/mx_rows.tsv
 cat $out
